@@ -233,13 +233,20 @@ static std::map<std::string, Fn> table;
 #define REG(name, ...) table[name] = &Run<__VA_ARGS__ >::go
 
 // per-case CPU-time watchdog (ITIMER_PROF counts CPU time of this process only: independent of machine load).  A ring operation
-// that does not return within the budget (C03_CASE_CPU_S seconds, default 20) answers "DOES-NOT-RETURN" for that case and the process
-// exits with status 3; checks/C03.py re-runs that one case alone with a larger budget and carries on with the remaining cases.
+// that does not return within the budget (C03_CASE_CPU_S seconds, default 10) answers "DOES-NOT-RETURN" for that case and the process
+// exits with status 3; checks/C03.py re-runs that one case alone with a larger budget (30 s), then stops driving that call form and carries on with the remaining cases.
 static void on_cpu_budget(int) {
     std::cout.flush();
     const char m[] = "DOES-NOT-RETURN\n";
     ssize_t w = write(1, m, sizeof m - 1); (void) w;
     _exit(3);
+}
+// a fatal signal inside a call: answer CRASHED for that case (flushing what was answered before) and exit with status 4
+static void on_fatal(int) {
+    std::cout.flush();
+    const char m[] = "CRASHED\n";
+    ssize_t w = write(1, m, sizeof m - 1); (void) w;
+    _exit(4);
 }
 static void arm_watchdog(long sec) {
     struct itimerval it; it.it_interval.tv_sec = 0; it.it_interval.tv_usec = 0; it.it_value.tv_sec = sec; it.it_value.tv_usec = 0;
@@ -248,8 +255,9 @@ static void arm_watchdog(long sec) {
 
 int main() {
     typedef __int128_t i128; typedef __uint128_t u128;
-    long cpu_budget = 20; { const char* e = getenv("C03_CASE_CPU_S"); if (e && atol(e) > 0) cpu_budget = atol(e); }
+    long cpu_budget = 10; { const char* e = getenv("C03_CASE_CPU_S"); if (e && atol(e) > 0) cpu_budget = atol(e); }
     signal(SIGPROF, on_cpu_budget);
+    signal(SIGSEGV, on_fatal); signal(SIGFPE, on_fatal); signal(SIGABRT, on_fatal); signal(SIGBUS, on_fatal); signal(SIGILL, on_fatal);
     // The ring types are spread over four translation units (-DC03_PART=1..4, compiled in parallel by checks/C03.py);
     // without C03_PART every ring is registered.
 #if !defined(C03_PART) || C03_PART == 1
